@@ -224,15 +224,19 @@ def connected(n, pairs, skip=()):
     return len(seen) == len(nodes)
 
 
-def oracle(ctx, d, fail=None):
-    """independent checks on the implementation for one lattice; returns (lattice, adj, coords) or None"""
+def oracle(ctx, d, fail=None, latt=None, tag=""):
+    """independent checks on the implementation for one lattice; returns (lattice, adj, coords) or None.
+    `latt`: run on this existing object (which has a history of earlier calls) instead of a fresh one;
+    `tag` is then appended to every signature."""
     cls = CLASSNAME[d[0]]
     inp = {"lattice": d}
-    fail = fail or ctx.fail
-    try:
-        latt = build(d)
-    except Exception as e:
-        return None
+    fail0 = fail or ctx.fail
+    fail = (lambda s, *a: fail0(s + tag, *a)) if tag else fail0
+    if latt is None:
+        try:
+            latt = build(d)
+        except Exception as e:
+            return None
     try:
         n = int(latt.nsites)
         A = np.asarray(latt.adjacency_matrix())
@@ -317,6 +321,170 @@ def oracle(ctx, d, fail=None):
     return latt, Ai, coords
 
 
+# ----------------------------------------------------------------------------- histories on one object
+# The property speaks about "the adjacency matrix / coordinates of a lattice": they must be a function of the
+# lattice's defining data, not of what earlier callers did with previously returned arrays or with the objects
+# they handed to the constructor.  (Python aliasing is not part of the Coq model; this is an oracle on the
+# implementation.)  A history = construct with caller-owned mutable arguments, modify those arguments, then
+# call the four observables repeatedly, writing into every returned array in place between the calls.
+# Not part of a history: assigning to attributes of a lattice object (no lattice class offers a mutator).
+def build_owned(d, own):
+    """like build(), but every constructor argument is a mutable object owned by the caller
+    (shape/pbc lists, the adjacency array, the base lattice); they are collected in `own`"""
+    import qib.lattice as ql
+
+    def keep(what, x):
+        own.append((what, x))
+        return x
+    k = d[0]
+    if k in ("int", "tri"):
+        cls = ql.IntegerLattice if k == "int" else ql.TriangularLattice
+        return cls(keep("shape", list(d[1])), pbc=keep("pbc", [bool(b) for b in d[2]]))
+    if k == "brick":
+        return ql.BrickLattice(keep("shape", [d[1], d[2]]), pbc=False, delete=bool(d[4]), convention=conv(d[3]))
+    if k == "hex":
+        return ql.HexagonalLattice(keep("shape", [d[1], d[2]]), pbc=False, convention=conv(d[3]))
+    if k == "ofc":
+        return ql.OddFaceCenteredLattice(keep("shape", [d[1], d[2]]), pbc=keep("pbc", [bool(d[3]), bool(d[4])]))
+    if k == "full":
+        return ql.FullyConnectedLattice(keep("shape", list(d[1])))
+    if k == "custom":
+        return ql.CustomizedLattice(keep("shape", list(d[1])), keep("adj", np.array(d[2], dtype=int).reshape(len(d[2]), -1)))
+    if k == "layer":
+        return ql.LayeredLattice(keep("base", build_owned(d[1], own)), d[2])
+    raise ValueError(k)
+
+
+def scribble(x, mode=0):
+    """write into a returned value in place if it is mutable; returns True if something was written"""
+    if isinstance(x, np.ndarray):
+        if not x.flags.writeable or x.size == 0:
+            return False
+        try:
+            if mode % 3 == 0:
+                x[...] = (np.asarray(x) == 0)              # complement: ones on the diagonal, links swapped
+            elif mode % 3 == 1:
+                if x.ndim == 2:
+                    x[np.tril_indices(x.shape[0], 0, x.shape[1])] = 0   # "keep the upper triangle"
+                np.multiply(x, 2, out=x, casting="unsafe")
+                x.flat[0] = 1
+            else:
+                x[...] = 0
+                x.flat[-1] = 1
+        except (ValueError, TypeError):
+            return False
+        return True
+    if isinstance(x, list):
+        x[:] = [(not v) if isinstance(v, bool) else v + 1 for v in x if isinstance(v, (bool, int))] + [2]
+        return True
+    if isinstance(x, tuple):
+        return any([scribble(v, mode) for v in x if isinstance(v, (np.ndarray, list))])
+    return False
+
+
+def observe(latt):
+    """(nsites, adjacency as int array copy, coordinates, indices of those coordinates); arrays are returned too
+    so that the caller can write into them"""
+    n = int(latt.nsites)
+    A = latt.adjacency_matrix()
+    coords = [latt.index_to_coord(i) for i in range(n)]
+    back = []
+    for c in coords:
+        r = latt.coord_to_index(c)
+        back.append(None if r is None else int(r))
+    snap = (n, np.array(A).astype(int), [tuple(float(v) for v in np.asarray(c, dtype=float).reshape(-1)) for c in coords], back)
+    return snap, A, coords
+
+
+def snap_diff(a, b):
+    """name of the first observable in which two snapshots differ, or None"""
+    if a[0] != b[0]:
+        return "nsites"
+    if a[1].shape != b[1].shape or not np.array_equal(a[1], b[1]):
+        return "adjacency_matrix"
+    if a[2] != b[2]:
+        return "index_to_coord"
+    if a[3] != b[3]:
+        return "coord_to_index"
+    return None
+
+
+def history_oracle(ctx, d, fail=None):
+    cls = CLASSNAME[d[0]]
+    inp = {"lattice": d, "history": "construct; modify constructor arguments; repeat { observe; write into returned arrays }"}
+    fail = fail or ctx.fail
+    try:
+        ref, _, _ = observe(build(d))          # fresh object, first calls, nothing modified
+    except Exception:
+        return                                 # refused by the constructor / reported by oracle()
+    own = []
+    try:
+        latt = build_owned(d, own)
+    except Exception as e:
+        fail(cls + ":constructor-refuses-list-arguments", inp, "same lattice as from tuples", repr(e))
+        return
+
+    def look(sig_of, what):
+        try:
+            s, A, co = observe(latt)
+        except Exception as e:
+            fail(cls + ":" + sig_of("call") + "-raises", inp, "same results as a fresh lattice", repr(e))
+            return None
+        df = snap_diff(ref, s)
+        if df is not None:
+            fail(cls + ":" + sig_of(df), inp, "results of a fresh %s of the same defining data" % cls,
+                 {"differs": df, "after": what, "adjacency": s[1].tolist() if s[1].size <= 64 else "..."})
+            return None
+        return s, A, co
+
+    # 1. constructor arguments owned by the caller, modified after construction
+    for what, x in own:
+        if what == "base":
+            # the only way to reach into a base lattice through its interface: arrays it hands out
+            try:
+                scribble(x.adjacency_matrix(), 0)
+                for i in range(min(int(x.nsites), 3)):
+                    scribble(x.index_to_coord(i), 0)
+            except Exception:
+                pass
+        else:
+            scribble(x, 0)
+    r = look(lambda op: "%s-changed-by-modifying-a-constructor-argument-afterwards" % op,
+             "in-place modification of " + ", ".join(sorted({w for w, _ in own})))
+    if r is None:
+        return
+    # 2. repeated calls without interference, then with in-place writes into everything returned
+    r2 = look(lambda op: "%s-differs-between-identical-calls" % op, "a second identical call")
+    if r2 is None:
+        return
+    wrote = False
+    for mode in range(3):
+        _, A, co = r2
+        wrote |= scribble(A, mode)
+        for c in co:
+            wrote |= scribble(c, mode)
+        r2 = look(lambda op: "%s-changed-by-in-place-modification-of-an-earlier-result" % op,
+                  "writing into the arrays returned by the previous calls (pattern %d)" % mode)
+        if r2 is None:
+            return
+    if wrote:
+        ctx.count("history:wrote-into-returned-array")
+    # 3. the geometric reference on the used object, and on a fresh object constructed after all of this
+    oracle(ctx, d, fail=fail, latt=latt, tag=":after-in-place-modification-of-earlier-results")
+    try:
+        fresh = build(d)
+        s, _, _ = observe(fresh)
+    except Exception as e:
+        fail(cls + ":fresh-lattice-raises-after-history-on-another-object", inp, "independent objects", repr(e))
+        return
+    df = snap_diff(ref, s)
+    if df is not None:
+        fail(cls + ":%s-of-a-fresh-lattice-changed-by-in-place-modification-of-another-object's-result" % df, inp,
+             "lattice objects do not share state", {"differs": df})
+        return
+    oracle(ctx, d, fail=fail, latt=fresh, tag=":fresh-lattice-after-history-on-another-object")
+
+
 # ----------------------------------------------------------------------------- case generation
 def box(shape, lo=-1, extra=1):
     return itertools.product(*[range(lo, n + extra) for n in shape])
@@ -366,7 +534,8 @@ def families(ctx):
     bases = [["int", [3], [True]], ["int", [2, 2], [False, True]], ["int", [1, 3], [False, False]], ["tri", [2, 3], [False, False]],
              ["tri", [3, 3], [True, False]], ["brick", 1, 2, True, False], ["brick", 2, 1, False, True],
              ["hex", 1, 2, True], ["hex", 2, 2, False], ["ofc", 3, 3, False, False], ["ofc", 2, 4, True, False],
-             ["full", [3]], ["int", [], []]]
+             ["full", [3]], ["int", [], []],
+             ["custom", [3], [[0, 1, 0], [1, 0, 1], [0, 1, 0]]], ["custom", [2, 2], [[0, 1, 1, 0], [1, 0, 0, 2], [1, 0, 0, 0], [0, 2, 0, 0]]]]
     if T:
         bases += [["int", [2, 2, 2], [True, False, True]], ["hex", 2, 3, True], ["brick", 3, 2, True, True],
                   ["ofc", 4, 3, True, False], ["layer", ["int", [2], [False]], 2]]
@@ -470,6 +639,7 @@ def run(ctx):
                 add("CAdj %s None" % L, {"lattice": d, "op": "adjacency_matrix"}, nt)
                 continue
         latt, A, coords = res
+        history_oracle(ctx, d)
         n = int(latt.nsites)
         add("CNs %s %s" % (L, ct.z(n)), {"lattice": d, "op": "nsites"}, nt)
         rows = [[int(j) for j in np.nonzero(A[i])[0]] for i in range(n)]
@@ -625,6 +795,8 @@ def replay(ctx, data):
     res = oracle(ctx, d, fail=fail)
     if res is not None and d[0] == "ofc" and res[2] is not None:
         edge_oracle(ctx, d, res[0], res[2], fail=fail)
+    if res is not None:
+        history_oracle(ctx, d, fail=fail)
     for s, i, e, o in hit:
         if s == sig:
             ctx.fail(sig, inp, e, o)
